@@ -176,7 +176,10 @@ class Run:
                 if how == "lookup":
                     e = self.bucket.get_by_id(i)
                 else:
-                    e = next((x for x in self.bucket.get(-1) if x.id == i), None)
+                    # the event is handed out by a listing: the full one, or one limited to the newest 1 / 2 / 5 events
+                    e = next((x for x in self.bucket.get(self.rnd.choice([-1, 1, 1, 2, 5])) if x.id == i), None)
+                    if e is None:
+                        e = next((x for x in self.bucket.get(-1) if x.id == i), None)
                 if e is None:
                     return None
                 rec["got"] = self.vname(e)
